@@ -389,9 +389,10 @@ pub fn run_uper(ctx: &mut RunCtx<'_>, outcomes_only: bool) -> Option<Violation> 
 
 pub fn run_proto(ctx: &mut RunCtx<'_>) -> Option<Violation> {
     let z = zoo();
-    let types = z.with_flag(F_PROTO);
     let lifted: Vec<String> = ctx.lifted.to_vec();
     let is_lifted = move |f: &str| lifted.iter().any(|l| l == f || l == "all");
+    // D11 (open known finding): ProtobufReader never terminates for a type with a list directly in a list
+    let types: Vec<usize> = z.with_flag(F_PROTO).into_iter().filter(|t| is_lifted("D11") || z.types[*t].flags & F_NESTED_LIST == 0).collect();
     let (cfg, nfaults, enabled, xtype) = {
         let mut l0 = Lane::new(ctx.ch, 0);
         let mut cfg = draw_gen_cfg(&mut l0, &is_lifted, true);
@@ -433,6 +434,11 @@ pub fn run_proto(ctx: &mut RunCtx<'_>) -> Option<Violation> {
     let rops = &z.types[rty];
     ctx.note(|| format!("protobuf: sent {} {} = {}", ops.name, (ops.tree)(&val).render(), hex(&clean)));
     ctx.note(|| format!("faults: {:?}; decoded as {} from {}", applied.iter().map(|a| format!("{}: {}", a.kind, a.text)).collect::<Vec<_>>(), rops.name, hex(&bytes)));
+    ctx.log.ev("W1", "proto-deliver", crate::choices::fnv1a(&bytes), || format!("{} bytes for {}", bytes.len(), rops.name));
+    if is_lifted("dry-no-read") {
+        // harness aid: lets `sim tape` obtain the tape of a run whose consumer would hang
+        return None;
+    }
     let m = alloc::mark();
     let r = guard(|| {
         let mut reader = ProtobufReader::from(&bytes[..]);
